@@ -355,7 +355,9 @@ func ServerCheck(sc sim.Scenario, h *sim.History, opt ServerOptions) []Problem {
 		// have no handler running, and answers the fewest that have not started (so that a record with a loose expectation
 		// does not take the reply a definite one is waiting for).
 		st := startedUpTo()
-		definite := func(r *record) bool { return (!r.queued || expectsReply(r)) && recDone(r) && r.idx < st }
+		// (a record that is no JSON at all or an empty array is answered by the
+		// reader itself, whatever the barrier holds back)
+		definite := func(r *record) bool { return !r.queued || (expectsReply(r) && recDone(r) && r.idx < st) }
 		open := 0
 		for _, r := range cur() {
 			if !hasReply(r) && definite(r) {
@@ -367,18 +369,31 @@ func ServerCheck(sc sim.Scenario, h *sim.History, opt ServerOptions) []Problem {
 			lower = 0
 		}
 		best, bestCost, nodes := []*record(nil), -1, 0
-		var search func(i int)
-		search = func(i int) {
-			if nodes++; nodes > 50000 || bestCost == lower {
+		// most constrained message first
+		order := make([]int, len(ws))
+		nAdm := make([]int, len(ws))
+		for i := range ws {
+			order[i] = i
+			for _, r := range cs[i].recs {
+				if cs[i].pass[r] && r.sentSeq <= ws[i].seq {
+					nAdm[i]++
+				}
+			}
+		}
+		sort.SliceStable(order, func(a, b int) bool { return nAdm[order[a]] < nAdm[order[b]] })
+		const budget = 200000
+		var search func(k int)
+		search = func(k int) {
+			if nodes++; nodes > budget || bestCost == lower {
 				return
 			}
-			if i == len(ws) {
+			if k == len(ws) {
 				cost := 0
 				for _, r := range cur() {
 					if !hasReply(r) && !taken[r] && definite(r) {
 						cost++
 					}
-					if taken[r] && r.idx >= st {
+					if taken[r] && r.queued && r.idx >= st {
 						cost++ // answered although an earlier notification still holds the barrier
 					}
 				}
@@ -387,18 +402,22 @@ func ServerCheck(sc sim.Scenario, h *sim.History, opt ServerOptions) []Problem {
 				}
 				return
 			}
+			i := order[k]
 			for _, r := range cs[i].recs {
 				if taken[r] || !cs[i].pass[r] || r.sentSeq > ws[i].seq {
 					continue
 				}
 				taken[r] = true
 				assign[i] = r
-				search(i + 1)
+				search(k + 1)
 				taken[r] = false
 			}
 		}
-		if len(ws) <= 12 {
-			search(0)
+		search(0)
+		if best == nil && nodes > budget {
+			// The search ran out of budget before it found any consistent
+			// assignment: nothing that depends on attribution can be judged.
+			add("undecided/attribution", "attribution of %d id-less outbound records was not decided within the search budget", len(ws))
 		}
 		if best != nil {
 			copy(assign, best)
